@@ -1494,6 +1494,23 @@ func main() {
 		}
 	}
 
+	// 14. bases the client refuses before anything is sent (http.NewRequest fails or the transport
+	//     has no scheme to use): the limiter, if any, is asked; nothing is sent; an ordinary error
+	for _, bad := range []string{"http://osm.test/a\x7fb/api", "http://osm.test/%zz/api/0.6", "http://bad host/api/0.6",
+		"osm.test/api/0.6", "ftp://osm.test/api/0.6", "http://osm.test/api\n/0.6", "http://osm.test/100%/api", "://osm.test"} {
+		for _, v := range vs {
+			if (v.code+v.elem+len(bad))%4 != 0 && a.Tier != "thorough" {
+				continue
+			}
+			for lim := 0; lim < 3; lim++ {
+				k := randCall(rng, v.code, v.elem)
+				k.NOpts = validOnly(k.NOpts)
+				c, ob := e.doCaseW("unusable-base", bad, plain(lim), k, 200, okBody(k))
+				add(c, ob)
+			}
+		}
+	}
+
 	// canaries: one corrupted observation per observable class; Coq must flag exactly these
 	{
 		mk := func(mut func(ob *observed), k call, st int, lim int) {
